@@ -449,6 +449,7 @@ func (he *HashEntry) Each(consumer px.Consumer) {
 }
 
 func (he *HashEntry) EachSlice(n int, consumer px.SliceConsumer) {
+	assertSliceSize(n)
 	if n == 1 {
 		consumer(SingletonArray(he.key))
 		consumer(SingletonArray(he.value))
@@ -858,6 +859,7 @@ func (hv *Hash) Each(consumer px.Consumer) {
 }
 
 func (hv *Hash) EachSlice(n int, consumer px.SliceConsumer) {
+	assertSliceSize(n)
 	top := len(hv.entries)
 	for i := 0; i < top; i += n {
 		e := i + n
